@@ -327,6 +327,8 @@ Lemma assemble_stages its c0 l0 cmp r :
     (if cmp then transform_compressible (resolve_register_aliases i4 consts) consts lab4
      else Done (resolve_register_aliases i4 consts, lab4)) = Done (i6, lab6) /\
     nonneg (resolve_register_aliases (filter not_const its) consts) /\ nonneg i3 /\ nonneg i6 /\
+    NoDup (gnames (resolve_register_aliases (filter not_const its) consts)) /\
+    exact (resolve_register_aliases (filter not_const its) consts) labels /\ exact i3 lab3 /\
     pgrouped Ralign 0 i6 al /\ Forall2 same1 al fin /\
     blobbed fin (r_chunks r) /\ exact fin (r_labels r) /\ gnames fin = gnames its.
 Proof.
@@ -395,6 +397,9 @@ Proof.
   split. { exact N2. }
   split. { exact N3. }
   split. { exact N6. }
+  split. { exact D2. }
+  split. { exact X2. }
+  split. { exact X3. }
   split. { exact A7. }
   split. { exact SS. }
   split. { apply resolve_blobs_blobbed; auto. }
@@ -456,9 +461,9 @@ Theorem compression_monotone its c0 l0 rA rB :
 Proof.
   intros Hn Hc HA HB.
   destruct (assemble_stages _ _ _ _ _ HA Hn) as (cA & lA & i3A & lab3A & i4A & lab4A & i6A & lab6A & alA & finA &
-                                                  A1 & A2 & A3 & A4 & A6 & N2A & N3A & N6A & PA & SA & BA & XA & GA).
+                                                  A1 & A2 & A3 & A4 & A6 & N2A & N3A & N6A & D2A & X2A & X3A & PA & SA & BA & XA & GA).
   destruct (assemble_stages _ _ _ _ _ HB Hn) as (cB & lB & i3B & lab3B & i4B & lab4B & i6B & lab6B & alB & finB &
-                                                  B1 & B2 & B3 & B4 & B6 & N2B & N3B & N6B & PB & SB & BB & XB & GB).
+                                                  B1 & B2 & B3 & B4 & B6 & N2B & N3B & N6B & D2B & X2B & X3B & PB & SB & BB & XB & GB).
   rewrite A1 in B1. inversion B1; subst cB. rewrite A2 in B2. inversion B2; subst lB.
   set (i2 := resolve_register_aliases (filter not_const its) cA) in *.
   pose proof (run_groups false _ _ _ _ _ _ _ _ _ A3 A4 A6) as RA.
@@ -475,6 +480,423 @@ Proof.
     inversion Ea'; inversion Eb'; subst qa qb.
     rewrite <- (same_goff L _ _ SA), OA in Qa. rewrite <- (same_goff L _ _ SB), OB in Qb.
     destruct (aoff L 0 i6A) as [x|] eqn:Fa; try discriminate. destruct (aoff L 0 i6B) as [y|] eqn:Fb; try discriminate.
+    simpl in Qa, Qb. inversion Qa; inversion Qb; subst. specialize (M2 _ _ _ Fa Fb). lia.
+  - rewrite <- (blobbed_total _ _ BA), <- (blobbed_total _ _ BB), <- (same_total _ _ SA), <- (same_total _ _ SB). lia.
+Qed.
+
+(* ---- part 4: call / tail too -- the pseudo pass of both runs in lockstep ---------------------------------------------------- *)
+Definition relAB (x y : litem) : Prop := Rst true x [y].
+Lemma st_forall2 a b : grouped (Rst true) a b -> Forall2 relAB a b.
+Proof.
+  induction 1 as [|x l bs bs' Hx _ IH]. constructor.
+  assert (exists y, bs = [y]) as [y ->].
+  { unfold Rst in Hx. destruct (snd x); try (eexists; exact Hx). destruct Hx as (y & -> & _). eauto. }
+  cbn [app]. constructor; auto.
+Qed.
+Lemma relAB_label x y : relAB x y -> is_label (snd x) = is_label (snd y) /\ isz (snd y) <= isz (snd x) /\ fst y = fst x.
+Proof.
+  unfold relAB, Rst. destruct x as [l it]. cbn [fst snd]. destruct it; intro H; try (inversion H; subst; cbn [fst snd]; repeat split; lia).
+  destruct H as (z & E & [Hl (c1 & n1 & f1 & k1 & Ez)] & Hc). inversion E; subst z. rewrite Ez. cbn [is_label]. rewrite Ez in Hc. auto.
+Qed.
+Lemma relAB_goff L a b : Forall2 relAB a b -> nonneg b ->
+  forall qa, goff L a = Some qa -> exists qb, goff L b = Some qb /\ 0 <= qb <= qa.
+Proof.
+  induction 1 as [|[l1 x] [l2 y] a b Hxy _ IH]; intros Hn qa Hg. discriminate.
+  inversion Hn as [|? ? [Hy0 _] Hn']; subst. cbn [snd] in Hy0.
+  destruct (relAB_label _ _ Hxy) as (El & Es & _). cbn [snd] in El, Es. simpl in Hg |- *. rewrite <- El.
+  destruct (is_label x) as [n|].
+  - destruct (String.eqb L n). inversion Hg; subst. exists 0. split; auto; lia. apply IH; auto.
+  - destruct (goff L a) as [q|] eqn:Eq; simpl in Hg; inversion Hg; subst.
+    destruct (IH Hn' q eq_refl) as (qb & -> & Hq). exists (isz y + qb). split. reflexivity. lia.
+Qed.
+Lemma relAB_gnames a b : Forall2 relAB a b -> gnames a = gnames b.
+Proof.
+  induction 1 as [|[l1 x] [l2 y] a b Hxy _ IH]; simpl; auto.
+  destruct (relAB_label _ _ Hxy) as (El & _). cbn [snd] in El. rewrite <- El, IH. reflexivity.
+Qed.
+Lemma relAB_total a b : Forall2 relAB a b -> total b <= total a.
+Proof.
+  induction 1 as [|x y a b Hxy _ IH]; unfold total in *; simpl. lia.
+  destruct (relAB_label _ _ Hxy) as (_ & Es & _). lia.
+Qed.
+Lemma goff_le_total L its q : nonneg its -> goff L its = Some q -> q <= total its.
+Proof.
+  revert q. induction its as [|[l it] r IH]; intros q Hn Hg. discriminate.
+  inversion Hn as [|? ? [H0 _] Hn']; subst. cbn [snd] in H0. simpl in Hg.
+  assert (T : 0 <= total r).
+  { clear - Hn'. unfold total. induction Hn' as [|x r [Hx _] _ IHr]; simpl; lia. }
+  change (total ((l, it) :: r)) with (isz it + total r).
+  destruct (is_label it).
+  - destruct (String.eqb L s). inversion Hg; subst. lia. specialize (IH _ Hn' Hg). lia.
+  - destruct (goff L r) as [q'|] eqn:E; simpl in Hg; inversion Hg; subst. specialize (IH _ Hn' eq_refl). lia.
+Qed.
+Lemma c_int32_small z : - 2 ^ 31 <= z < 2 ^ 31 -> c_int32 z = z.
+Proof.
+  intro H. unfold c_int32. cbv zeta.
+  destruct (Z_lt_ge_dec z 0).
+  - assert (E : z mod 2 ^ 32 = z + 2 ^ 32). { symmetry. apply Zmod_unique with (-1); lia. }
+    rewrite E. destruct (z + 2 ^ 32 <? 2 ^ 31) eqn:C; lia.
+  - rewrite Z.mod_small by lia. destruct (z <? 2 ^ 31) eqn:C; lia.
+Qed.
+
+Lemma call_choice l name args pimm e r lo hi near f1 f2 :
+  expand_pseudo l name args pimm = Done (Choice e (Some r) lo hi near f1 f2) -> e = EOff r /\ lo = -1048576 /\ hi = 1048575.
+Proof.
+  unfold expand_pseudo.
+  repeat match goal with
+         | |- context[if String.eqb name ?s then _ else _] =>
+             let E := fresh "E" in destruct (String.eqb name s) eqn:E; [ apply String.eqb_eq in E; subst name | ]
+         end;
+  try (intro H; discriminate H);
+  repeat match goal with |- context[match args with _ => _ end] => destruct args as [|? args] end;
+  try (intro H; discriminate H);
+  try (destruct pimm as [x|x]; simpl; intro H; discriminate H);
+  intro H; inversion H; subst; auto.
+Qed.
+
+Definition ahead (rem : list litem) (pos : Z) (ls : envt) : Prop :=
+  forall L q, goff L rem = Some q -> assoc_str L ls = Some (pos + q).
+Definition behind (rem : list litem) (posA posB : Z) (lsA lsB : envt) : Prop :=
+  forall L, ~ In L (gnames rem) -> forall a b, assoc_str L lsA = Some a -> assoc_str L lsB = Some b ->
+    0 <= a <= posA /\ 0 <= b <= posB /\ posB - b <= posA - a.
+Definition samedom (lsA lsB : envt) : Prop := forall L, assoc_str L lsA = None <-> assoc_str L lsB = None.
+Definition shifted (pos old new : Z) (ls : envt) : envt := if old - new >? 0 then shrink_after pos (old - new) ls else ls.
+
+Lemma assoc_shifted k pos old new ls : new <= old ->
+  assoc_str k (shifted pos old new ls) =
+  match assoc_str k ls with Some v => Some (if v >? pos then v - (old - new) else v) | None => None end.
+Proof.
+  intro H. unfold shifted. destruct (old - new >? 0) eqn:E.
+  - apply assoc_shrink.
+  - destruct (assoc_str k ls) as [v|]; auto. destruct (v >? pos); auto. f_equal. lia.
+Qed.
+Lemma ahead_step l it r pos ls old new :
+  ahead ((l, it) :: r) pos ls -> is_label it = None -> isz it = old -> 0 <= new <= old -> nonneg r ->
+  ahead r (pos + new) (shifted pos old new ls).
+Proof.
+  intros Ha El Eo Hb Hn L q Hg. pose proof (goff_nonneg _ _ _ Hn Hg) as Hq.
+  specialize (Ha L (old + q)). simpl in Ha. rewrite El, Hg, Eo in Ha. specialize (Ha eq_refl).
+  rewrite assoc_shifted by lia. rewrite Ha.
+  assert (G : pos + (old + q) >? pos = (old + q >? 0)) by (destruct (old + q >? 0) eqn:E; lia).
+  rewrite G. destruct (old + q >? 0) eqn:E; f_equal; lia.
+Qed.
+Lemma ahead_label l n r pos ls : ahead ((l, ILabel n) :: r) pos ls -> NoDup (gnames ((l, ILabel n) :: r)) -> ahead r pos ls.
+Proof.
+  intros Ha Hnd L q Hg. apply Ha. simpl. destruct (String.eqb L n) eqn:E; [|exact Hg].
+  apply String.eqb_eq in E. subst. simpl in Hnd. inversion Hnd as [|? ? N1 _]; subst. exfalso. apply N1. eapply goff_in; eauto.
+Qed.
+Lemma behind_step l it r posA posB lsA lsB oldA newA oldB newB :
+  behind ((l, it) :: r) posA posB lsA lsB -> is_label it = None ->
+  0 <= newB <= newA -> newA <= oldA -> newB <= oldB ->
+  behind r (posA + newA) (posB + newB) (shifted posA oldA newA lsA) (shifted posB oldB newB lsB).
+Proof.
+  intros Hb El H1 H2 H3 L Hn a b Ea Eb. rewrite assoc_shifted in Ea, Eb by lia.
+  destruct (assoc_str L lsA) as [a0|] eqn:Fa; try discriminate. destruct (assoc_str L lsB) as [b0|] eqn:Fb; try discriminate.
+  assert (Hn' : ~ In L (gnames ((l, it) :: r))) by (simpl; rewrite El; exact Hn).
+  destruct (Hb L Hn' a0 b0 Fa Fb) as (A & B & C).
+  assert (Ga : a0 >? posA = false) by lia. assert (Gb : b0 >? posB = false) by lia.
+  rewrite Ga in Ea. rewrite Gb in Eb. inversion Ea; inversion Eb; subst. lia.
+Qed.
+Lemma samedom_shifted pA oA nA pB oB nB lsA lsB : nA <= oA -> nB <= oB -> samedom lsA lsB ->
+  samedom (shifted pA oA nA lsA) (shifted pB oB nB lsB).
+Proof.
+  intros H1 H2 Hs L. rewrite !assoc_shifted by lia. specialize (Hs L).
+  destruct (assoc_str L lsA), (assoc_str L lsB); split; intro H; try discriminate; auto; try (apply Hs in H; discriminate);
+    destruct Hs as [S1 S2]; try (specialize (S1 eq_refl); discriminate); try (specialize (S2 eq_refl); discriminate).
+Qed.
+
+Lemma call_rule consts l name args pimm pos ls rs ref lo hi near f1 f2 :
+  expand_pseudo l name args pimm = Done (Choice (EOff ref) (Some ref) lo hi near f1 f2) ->
+  pseudo_rule consts l (IPseudo name args pimm) pos ls = Done rs ->
+  exists dest, chain_get consts ls ref = Some dest /\
+    rs = if negb (in_consts consts ref) && (c_int32 (dest - pos) >=? lo) && (c_int32 (dest - pos) <=? hi) then [near] else [f1; f2].
+Proof.
+  intros Ex Hr. cbv beta iota delta [pseudo_rule] in Hr. rewrite Ex in Hr. cbv beta iota delta [obind] in Hr.
+  cbn [eeval] in Hr. destruct (chain_get consts ls ref) as [dest|] eqn:Ec; [|discriminate].
+  cbv beta iota delta [of_pres obind] in Hr. cbv zeta in Hr. exists dest. split. reflexivity.
+  destruct (_ && _ && _); inversion Hr; reflexivity.
+Qed.
+Lemma chain_label consts ls ref : in_consts consts ref = false -> chain_get consts ls ref = assoc_str ref ls.
+Proof. unfold in_consts, chain_get. destruct (assoc_str ref consts); [discriminate|reflexivity]. Qed.
+Lemma chain_const consts lsA lsB ref : in_consts consts ref = true -> chain_get consts lsA ref = chain_get consts lsB ref.
+Proof. unfold in_consts, chain_get. destruct (assoc_str ref consts); [reflexivity|discriminate]. Qed.
+
+Lemma pass_group_intro rule p l it ls rs : is_label it = None -> rule l it p ls = Done rs ->
+  pass_group rule p (l, it) (map (fun i => (l, i)) rs).
+Proof. intros El Hr. unfold pass_group. cbn [fst snd]. rewrite El. eauto. Qed.
+Lemma instrs_total_bounds l g : Forall (instr1 l) g -> 0 <= total g.
+Proof.
+  induction 1 as [|y g Hy _ IH]. unfold total; simpl; lia.
+  pose proof (instr1_isz _ _ Hy). unfold total in *. cbn [fold_right]. lia.
+Qed.
+
+Lemma nonneg_total its : nonneg its -> 0 <= total its.
+Proof. induction 1 as [|x r [Hx _] _ IH]; unfold total in *; simpl; lia. Qed.
+
+Lemma pair_step consts l itA l2 itB remA remB posA posB lsA lsB rsA rsB :
+  relAB (l, itA) (l2, itB) -> is_label itA = None ->
+  nonneg ((l, itA) :: remA) -> nonneg ((l2, itB) :: remB) -> Forall2 relAB remA remB ->
+  ahead ((l, itA) :: remA) posA lsA -> ahead ((l2, itB) :: remB) posB lsB ->
+  behind ((l, itA) :: remA) posA posB lsA lsB -> samedom lsA lsB ->
+  0 <= posA -> 0 <= posB -> posA + total ((l, itA) :: remA) < 2 ^ 31 -> posB + total ((l2, itB) :: remB) < 2 ^ 31 ->
+  pseudo_rule consts l itA posA lsA = Done rsA -> pseudo_rule consts l2 itB posB lsB = Done rsB ->
+  let gA := map (fun i => (l, i)) rsA in let gB := map (fun i => (l2, i)) rsB in
+  (exists n, itA = IAlign n /\ 1 <= n /\ gA = [(l, IAlign n)] /\ gB = [(l2, IAlign n)]) \/
+  (Forall plain1 gA /\ Forall plain1 gB /\ 0 <= total gB <= total gA).
+Proof.
+  intros Hrel El NA NB F2 AA AB BH SD PA0 PB0 BA BB HrA HrB. cbv zeta.
+  pose proof (pseudo_stage_ps consts posA _ _ (pass_group_intro _ _ _ _ _ _ El HrA)) as RA.
+  destruct (relAB_label _ _ Hrel) as (Elab & Esz & Eln). cbn [fst snd] in Elab, Esz, Eln. subst l2.
+  assert (ElB : is_label itB = None) by (rewrite <- Elab; exact El).
+  pose proof (pseudo_stage_ps consts posB _ _ (pass_group_intro _ _ _ _ _ _ ElB HrB)) as RB.
+  inversion NA as [|? ? [WA0 WAn] _]; subst. inversion NB as [|? ? [WB0 _] _]; subst. cbn [snd] in WA0, WAn, WB0.
+  unfold relAB, Rst in Hrel. cbn [fst snd] in Hrel.
+  unfold Rps in RA, RB. cbn [fst snd] in RA, RB.
+  assert (Same : forall (P : forall n, itA <> IAlign n), (forall c n f k, itA <> IInstr c n f k) -> (forall n a p, itA <> IPseudo n a p) ->
+                 itB = itA -> map (fun i => (l, i)) rsA = [(l, itA)] -> map (fun i => (l, i)) rsB = [(l, itA)] ->
+                 Forall plain1 (map (fun i => (l, i)) rsA) /\ Forall plain1 (map (fun i => (l, i)) rsB) /\
+                 0 <= total (map (fun i => (l, i)) rsB) <= total (map (fun i => (l, i)) rsA)).
+  { intros P _ _ _ -> ->. split; [|split]; try (constructor; [split; [exact El|exact P]|constructor]).
+    unfold total; cbn [fold_right snd]. lia. }
+  destruct itA; try discriminate;
+    try (right; inversion Hrel; subst itB; apply Same; auto; try (intros; discriminate); fail).
+  - (* IInstr *)
+    destruct Hrel as (z & E & Hz & Hc). inversion E; subst z. destruct Hz as [_ (c2 & n2 & f2 & k2 & Ez)]. cbn [snd] in Ez. subst itB.
+    rewrite RA, RB. right. cbn [snd] in Hc.
+    split; [|split]; try (constructor; [split; [reflexivity|intros k; discriminate]|constructor]).
+    unfold total; cbn [fold_right snd]. rewrite isz_instr in *. destruct k2; lia.
+  - (* IPseudo *)
+    inversion Hrel; subst itB. destruct RA as [FA TA]. destruct RB as [FB TB].
+    right. split. { eapply Forall_impl; [|exact FA]. intros; eapply instr1_plain; eauto. }
+    split. { eapply Forall_impl; [|exact FB]. intros; eapply instr1_plain; eauto. }
+    split. { eapply instrs_total_bounds; eauto. }
+    destruct (string_dec name "call") as [Ec|Nc]; [|destruct (string_dec name "tail") as [Et|Nt]].
+    3:{ assert (NC : not_call name) by (split; assumption). rewrite (TA NC), (TB NC). lia. }
+    all: (* call / tail: the choice *)
+      cbv beta iota delta [pseudo_rule] in HrA, HrB;
+      destruct (expand_pseudo l name args pimm) as [[it'|e tg lo hi near f1 f2]| |] eqn:Ex; cbv beta iota delta [obind] in HrA, HrB;
+        try discriminate;
+      [ exfalso; subst name; unfold expand_pseudo in Ex; cbn in Ex; destruct args as [|? [|? ?]]; discriminate | ].
+    all: assert (tg <> None) as Htg by
+        (subst name; unfold expand_pseudo in Ex; cbn in Ex; destruct args as [|? [|? ?]]; try discriminate; inversion Ex; discriminate).
+    all: destruct tg as [ref|]; [clear Htg|contradiction].
+    all: destruct (call_choice _ _ _ _ _ _ _ _ _ _ _ Ex) as (-> & -> & ->).
+    all: pose proof (expand_pseudo_shape _ _ _ _ _ Ex) as (_ & Pn & P1 & P2); cbn in Pn, P1, P2.
+    all: destruct (plain_instr1 l _ Pn) as [_ Sn]; destruct (plain_instr1 l _ P1) as [_ S1]; destruct (plain_instr1 l _ P2) as [_ S2].
+    all: assert (HrA' : pseudo_rule consts l (IPseudo name args pimm) posA lsA = Done rsA)
+        by (cbv beta iota delta [pseudo_rule]; rewrite Ex; exact HrA).
+    all: assert (HrB' : pseudo_rule consts l (IPseudo name args pimm) posB lsB = Done rsB)
+        by (cbv beta iota delta [pseudo_rule]; rewrite Ex; exact HrB).
+    all: destruct (call_rule _ _ _ _ _ _ _ _ _ _ _ _ _ _ Ex HrA') as (dA & CA & ->).
+    all: destruct (call_rule _ _ _ _ _ _ _ _ _ _ _ _ _ _ Ex HrB') as (dB & CB & ->).
+    all: destruct (in_consts consts ref) eqn:Ic;
+      [ cbn [negb andb map]; unfold total; cbn [fold_right snd]; lia | ].
+    all: rewrite (chain_label consts lsA _ Ic) in CA; rewrite (chain_label consts lsB _ Ic) in CB; cbn [negb andb].
+    all: assert (Hv : -1048576 <= c_int32 (dA - posA) <= 1048575 -> -1048576 <= c_int32 (dB - posB) <= 1048575);
+      [ | destruct ((c_int32 (dA - posA) >=? -1048576) && (c_int32 (dA - posA) <=? 1048575)) eqn:DA;
+          [ assert (DB : (c_int32 (dB - posB) >=? -1048576) && (c_int32 (dB - posB) <=? 1048575) = true) by
+              (apply andb_true_iff in DA; destruct DA; apply andb_true_iff; split; lia);
+            rewrite DB; cbn [map]; unfold total; cbn [fold_right snd]; lia
+          | destruct ((c_int32 (dB - posB) >=? -1048576) && (c_int32 (dB - posB) <=? 1048575));
+            cbn [map]; unfold total; cbn [fold_right snd]; lia ] ].
+    all: pose proof (nonneg_total _ NA) as TA0; pose proof (nonneg_total _ NB) as TB0.
+    all: (* the distances *)
+      destruct (in_dec string_dec ref (gnames ((l, IPseudo name args pimm) :: remA))) as [Hin|Hout];
+      [ destruct (in_goff _ _ Hin) as [qA QA];
+        assert (F2' : Forall2 relAB ((l, IPseudo name args pimm) :: remA) ((l, IPseudo name args pimm) :: remB))
+          by (constructor; [unfold relAB, Rst; reflexivity|exact F2]);
+        destruct (relAB_goff ref _ _ F2' NB _ QA) as (qB & QB & Hq);
+        pose proof (AA _ _ QA) as EA; pose proof (AB _ _ QB) as EB; rewrite CA in EA; rewrite CB in EB;
+        inversion EA; inversion EB; subst dA dB;
+        pose proof (goff_le_total _ _ _ NA QA); pose proof (goff_le_total _ _ _ NB QB);
+        replace (posA + qA - posA) with qA by lia; replace (posB + qB - posB) with qB by lia;
+        rewrite !c_int32_small by lia; lia
+      | destruct (BH ref Hout dA dB CA CB) as (HA & HB & HC);
+        rewrite !c_int32_small by lia; lia ].
+  - (* IAlign *)
+    inversion Hrel; subst itB. left. exists n. rewrite RA, RB. repeat split; auto.
+Qed.
+
+Lemma lockstep consts : forall remA remB, Forall2 relAB remA remB ->
+  forall posA posB lsA lsB oA oB lsA' lsB',
+  nonneg remA -> nonneg remB -> NoDup (gnames remA) ->
+  ahead remA posA lsA -> ahead remB posB lsB -> behind remA posA posB lsA lsB -> samedom lsA lsB ->
+  0 <= posA -> 0 <= posB -> posA + total remA < 2 ^ 31 -> posB + total remB < 2 ^ 31 ->
+  gp (pseudo_rule consts) remA posA lsA = Done (oA, lsA') ->
+  gp (pseudo_rule consts) remB posB lsB = Done (oB, lsB') ->
+  grel oA oB.
+Proof.
+  induction 1 as [|[l itA] [l2 itB] remA remB Hxy F2 IH];
+    intros posA posB lsA lsB oA oB lsA' lsB' NA NB ND AA AB BH SD PA0 PB0 BA BB HA HB.
+  - simpl in HA, HB. inversion HA; inversion HB; subst. constructor.
+  - destruct (relAB_label _ _ Hxy) as (Elab & Esz & Eln). cbn [fst snd] in Elab, Esz, Eln. subst l2.
+    inversion NA as [|? ? WA NA']; subst. inversion NB as [|? ? WB NB']; subst.
+    cbn [gp] in HA, HB. rewrite <- Elab in HB.
+    destruct (is_label itA) as [n|] eqn:El.
+    + (* a label marker *)
+      pose proof (is_label_inv _ _ El) as ->. symmetry in Elab. pose proof (is_label_inv _ _ Elab) as ->.
+      destruct (gp _ remA posA lsA) as [[oA1 lA1]| |] eqn:EA; cbn [obind] in HA; try discriminate.
+      destruct (gp _ remB posB lsB) as [[oB1 lB1]| |] eqn:EB; cbn [obind] in HB; try discriminate.
+      inversion HA; inversion HB; subst. cbn [fst].
+      apply grel_lab. eapply (IH posA posB lsA lsB oA1 oB1 _ _); try eassumption.
+      * simpl in ND. inversion ND; auto.
+      * eapply ahead_label; eauto.
+      * eapply ahead_label; eauto. rewrite <- (relAB_gnames _ _ (Forall2_cons _ _ Hxy F2)). exact ND.
+      * intros L Hn a b Ea Eb. destruct (String.eqb L n) eqn:E.
+        -- apply String.eqb_eq in E. subst L.
+           assert (Ga : assoc_str n lsA = Some (posA + 0)) by (apply AA; simpl; rewrite String.eqb_refl; reflexivity).
+           assert (Gb : assoc_str n lsB = Some (posB + 0)) by (apply AB; simpl; rewrite String.eqb_refl; reflexivity).
+           rewrite Ea in Ga. rewrite Eb in Gb. inversion Ga; inversion Gb; subst. lia.
+        -- apply (BH L); auto. simpl. intros [H|H]; auto. subst. rewrite String.eqb_refl in E. discriminate.
+    + (* an item *)
+      destruct (size_o itA) as [oldA| |] eqn:EoA; cbn [obind] in HA; try discriminate.
+      destruct (pseudo_rule consts l itA posA lsA) as [rsA| |] eqn:ErA; cbn [obind] in HA; try discriminate.
+      destruct (sizes rsA) as [newA| |] eqn:EnA; cbn [obind] in HA; try discriminate.
+      destruct (size_o itB) as [oldB| |] eqn:EoB; cbn [obind] in HB; try discriminate.
+      destruct (pseudo_rule consts l itB posB lsB) as [rsB| |] eqn:ErB; cbn [obind] in HB; try discriminate.
+      destruct (sizes rsB) as [newB| |] eqn:EnB; cbn [obind] in HB; try discriminate.
+      cbv zeta in HA, HB. fold (shifted posA oldA newA lsA) in HA. fold (shifted posB oldB newB lsB) in HB.
+      destruct (gp _ remA (posA + newA) _) as [[oA1 lA1]| |] eqn:EA; cbn [obind] in HA; try discriminate.
+      destruct (gp _ remB (posB + newB) _) as [[oB1 lB1]| |] eqn:EB; cbn [obind] in HB; try discriminate.
+      inversion HA; inversion HB; subst oA oB lsA' lsB'. cbn [fst].
+      assert (ElB : is_label itB = None) by (rewrite <- Elab; reflexivity).
+      destruct (pseudo_rule_ok consts l itA posA lsA rsA oldA newA WA El EoA ErA EnA) as [[HnA0 HnA1] _].
+      destruct (pseudo_rule_ok consts l itB posB lsB rsB oldB newB WB ElB EoB ErB EnB) as [[HnB0 HnB1] _].
+      pose proof (size_o_isz _ _ EoA) as IA. pose proof (size_o_isz _ _ EoB) as IB.
+      pose proof (sizes_total l _ _ EnA) as TA. pose proof (sizes_total l _ _ EnB) as TB.
+      pose proof (pair_step consts l itA l itB remA remB posA posB lsA lsB rsA rsB Hxy El NA NB F2 AA AB BH SD PA0 PB0 BA BB ErA ErB) as PS.
+      cbv zeta in PS.
+      assert (Hle : 0 <= newB <= newA).
+      { destruct PS as [(n & -> & Hn1 & GA & GB)|(P1 & P2 & Ht)].
+        - rewrite GA in TA. rewrite GB in TB. unfold total in TA, TB. cbn [fold_right snd] in TA, TB. lia.
+        - rewrite TA, TB in Ht. exact Ht. }
+      assert (REC : grel oA1 oB1).
+      { eapply (IH (posA + newA) (posB + newB) (shifted posA oldA newA lsA) (shifted posB oldB newB lsB) oA1 oB1 _ _); try eassumption.
+        - simpl in ND. rewrite El in ND. exact ND.
+        - eapply ahead_step; eauto; lia.
+        - eapply ahead_step; eauto; lia.
+        - eapply behind_step; eauto; lia.
+        - apply samedom_shifted; auto; lia.
+        - lia.
+        - lia.
+        - change (total ((l, itA) :: remA)) with (isz itA + total remA) in BA. lia.
+        - change (total ((l, itB) :: remB)) with (isz itB + total remB) in BB. lia. }
+      destruct PS as [(n & -> & Hn1 & -> & ->)|(P1 & P2 & Ht)].
+      * cbn [app]. apply grel_al; auto.
+      * apply grel_grp; auto.
+Qed.
+
+(* ---- the stages behind the pseudo pass keep the pairing ------------------------------------------------------------------ *)
+Lemma st_st l1 l2 x g h : Rst l1 x g -> grouped (Rst l2) g h -> Rst (l1 || l2) x h.
+Proof.
+  unfold Rst. destruct (snd x) eqn:Ex; intros H G; try (subst g; apply grouped_single in G; unfold Rst in G; rewrite Ex in G; exact G).
+  destruct H as (y & -> & Hy & Hc). apply grouped_single in G. unfold Rst in G.
+  destruct Hy as [Hl (c1 & n1 & f1 & k1 & E)]. rewrite E in G. destruct G as (z & -> & Hz & Hc2).
+  exists z. split. reflexivity. split. rewrite Hl in Hz. exact Hz. rewrite <- E in Hc2.
+  destruct l1, l2; simpl in *; lia.
+Qed.
+Lemma plain_st le g : Forall plain1 g -> forall g', grouped (Rst le) g g' -> Forall plain1 g' /\ cmpz le (total g') (total g).
+Proof.
+  induction 1 as [|[l it] g [P1 P2] _ IH]; intros g' G.
+  - inversion G; subst. split. constructor. destruct le; simpl; lia.
+  - inversion G as [|? ? bs bs' Hx G']; subst. destruct (IH _ G') as [A B]. cbn [snd] in P1, P2.
+    unfold Rst in Hx. cbn [fst snd] in Hx.
+    assert (C : Forall plain1 bs /\ cmpz le (total bs) (isz it)).
+    { destruct it; try discriminate; try (exfalso; eapply P2; reflexivity); try (subst bs; split; [constructor; [split; [exact P1|exact P2]|constructor]|
+                                          unfold total, cmpz; cbn [fold_right snd]; destruct le; lia]).
+      destruct Hx as (z & -> & Hz & Hc). split. constructor; [eapply instr1_plain; eauto|constructor].
+      unfold total, cmpz in *; cbn [fold_right]. destruct le; lia. }
+    destruct C as [C1 C2]. split. apply Forall_app; auto.
+    rewrite total_app. change (total ((l, it) :: g)) with (isz it + total g). unfold cmpz in *. destruct le; lia.
+Qed.
+Lemma nonneg_app_l a b : nonneg (app a b) -> nonneg a /\ nonneg b.
+Proof. unfold nonneg. intro H. apply Forall_app in H. exact H. Qed.
+Lemma grel_st le a b : grel a b -> forall a' b', grouped (Rst false) a a' -> grouped (Rst le) b b' -> nonneg b' -> grel a' b'.
+Proof.
+  induction 1 as [|l l' n a b _ IH|l l' n a b Hn _ IH|ga gb a b Pa Pb Ht _ IH]; intros a' b' Ga Gb Nb.
+  - inversion Ga; inversion Gb; subst. constructor.
+  - inversion Ga as [|? ? g1 a1 H1 Ga']; subst. inversion Gb as [|? ? g2 b1 H2 Gb']; subst.
+    unfold Rst in H1, H2. cbn [snd] in H1, H2. subst g1 g2. cbn [app] in *.
+    inversion Nb; subst. apply grel_lab. eapply IH; eauto.
+  - inversion Ga as [|? ? g1 a1 H1 Ga']; subst. inversion Gb as [|? ? g2 b1 H2 Gb']; subst.
+    unfold Rst in H1, H2. cbn [snd] in H1, H2. subst g1 g2. cbn [app] in *.
+    inversion Nb; subst. apply grel_al; [assumption|eapply IH; eauto].
+  - destruct (grouped_split _ _ _ _ Ga) as (ga' & a1 & -> & G1 & G2).
+    destruct (grouped_split _ _ _ _ Gb) as (gb' & b1 & -> & G3 & G4).
+    destruct (plain_st false _ Pa _ G1) as [A1 A2]. destruct (plain_st le _ Pb _ G3) as [B1 B2].
+    destruct (nonneg_app_l _ _ Nb) as [N1 N2]. pose proof (nonneg_total _ N1).
+    apply cmpz_weaken in B2. simpl in A2.
+    apply grel_grp; [assumption|assumption|lia|eapply IH; eauto].
+Qed.
+
+Lemma filter_total its : total (filter not_const its) = total its.
+Proof.
+  unfold total. induction its as [|[l it] r IH]; simpl; auto. unfold not_const at 1. cbn [snd].
+  destruct it; simpl; rewrite ?IH; auto.
+Qed.
+Lemma keys_none (a b : envt) : map fst a = map fst b -> forall L, assoc_str L a = None <-> assoc_str L b = None.
+Proof.
+  revert b. induction a as [|[k v] a IH]; intros [|[k' v'] b] H L; simpl in *; try discriminate. tauto.
+  inversion H; subst. destruct (String.eqb L k'). split; discriminate. apply IH; auto.
+Qed.
+
+(* THE THEOREM with call / tail: needs that every label comes from the program (labels0 = []) and a program below 2 GiB
+   (the near / far test of call / tail wraps the distance to 32 bits) *)
+Theorem compression_monotone_all its c0 rA rB :
+  nonneg its -> total its < 2 ^ 31 ->
+  assemble_items its c0 [] false = Done rA -> assemble_items its c0 [] true = Done rB ->
+  (forall L a b, In L (gnames its) -> assoc_str L (r_labels rA) = Some a -> assoc_str L (r_labels rB) = Some b -> b <= a) /\
+  fold_right (fun c acc => chunk_len (snd c) + acc) 0 (r_chunks rB) <= fold_right (fun c acc => chunk_len (snd c) + acc) 0 (r_chunks rA).
+Proof.
+  intros Hn Hsz HA HB.
+  destruct (assemble_stages _ _ _ _ _ HA Hn) as (cA & lA & i3A & lab3A & i4A & lab4A & i6A & lab6A & alA & finA &
+                                                  A1 & A2 & A3 & A4 & A6 & N2A & N3A & N6A & D2A & X2A & X3A & PA & SA & BA & XA & GA).
+  destruct (assemble_stages _ _ _ _ _ HB Hn) as (cB & lB & i3B & lab3B & i4B & lab4B & i6B & lab6B & alB & finB &
+                                                  B1 & B2 & B3 & B4 & B6 & N2B & N3B & N6B & D2B & X2B & X3B & PB & SB & BB & XB & GB).
+  rewrite A1 in B1. inversion B1; subst cB. rewrite A2 in B2. inversion B2; subst lB.
+  set (i1 := filter not_const its) in *. set (i2 := resolve_register_aliases i1 cA) in *.
+  inversion A3; subst i3A lab3A. inversion A6; subst i6A lab6A.
+  (* the first compression pass of the compressed run: one item for one item, keys kept *)
+  pose proof (compress_groups true _ _ _ _ _ B3) as G3. pose proof (st_forall2 _ _ G3) as F2.
+  assert (K3 : map fst lab3B = map fst lA).
+  { unfold transform_compressible in B3.
+    destruct (gpass_exact _ (compress_rule_ok cA) _ _ _ _ N2A D2A X2A B3) as (_ & _ & K & _). exact K. }
+  (* the pseudo pass of both runs in lockstep *)
+  unfold transform_pseudo in A4, B4. rewrite gpass_gp in A4, B4.
+  destruct (gp (pseudo_rule cA) i2 0 lA) as [[oA lsA']| |] eqn:EA; cbn [obind] in A4; try discriminate.
+  destruct (gp (pseudo_rule cA) i3B 0 lab3B) as [[oB lsB']| |] eqn:EB; cbn [obind] in B4; try discriminate.
+  cbn [rev app fst snd] in A4, B4. inversion A4; subst i4A lab4A. inversion B4; subst i4B lab4B.
+  assert (T2 : total i2 = total its).
+  { unfold i2. rewrite <- (same_total _ _ (aliases_same i1 cA)). apply filter_total. }
+  assert (H1 : ahead i2 0 lA) by (intros L q Hg; rewrite (X2A L q Hg); f_equal).
+  assert (H2 : ahead i3B 0 lab3B) by (intros L q Hg; rewrite (X3B L q Hg); f_equal).
+  assert (H3 : behind i2 0 0 lA lab3B).
+  { intros L Hnin a b Ea _. exfalso.
+    assert (Hn1 : ~ In L (gnames i1)).
+    { intro Hi. apply Hnin. unfold i2. rewrite <- (same_gnames _ _ (aliases_same i1 cA)). exact Hi. }
+    unfold resolve_labels in A2. rewrite (rlf_other _ _ _ _ _ L A2 Hn1) in Ea. discriminate. }
+  assert (H4 : samedom lA lab3B) by (intro L; symmetry; apply keys_none; exact K3).
+  assert (H5 : 0 + total i3B < 2 ^ 31) by (pose proof (relAB_total _ _ F2); lia).
+  assert (H6 : 0 + total i2 < 2 ^ 31) by lia.
+  pose proof (lockstep cA i2 i3B F2 0 0 lA lab3B oA oB lsA' lsB' N2A N3B D2A H1 H2 H3 H4 ltac:(lia) ltac:(lia) H6 H5 EA EB) as GR4.
+  (* alias resolution (both) and the second compression pass (compressed run) keep the pairing *)
+  pose proof (aliases_st oA cA) as SA5. pose proof (aliases_st oB cA) as SB5.
+  pose proof (compress_groups true _ _ _ _ _ B6) as SB6.
+  assert (SB56 : grouped (Rst true) oB i6B).
+  { eapply grouped_trans; [|exact SB5|exact SB6]. intros x g h Hx1 Hx2. exact (st_st false true x g h Hx1 Hx2). }
+  pose proof (grel_st true _ _ GR4 _ _ SA5 SB56 N6B) as GR.
+  destruct (grel_mono _ _ GR 0 0 ltac:(lia)) as (M1 & M2 & M3).
+  destruct (align_layout _ _ _ PA N6A) as (TA & OA). destruct (align_layout _ _ _ PB N6B) as (TB & OB).
+  split.
+  - intros L a b Hin Ea Eb.
+    assert (InA : In L (gnames finA)) by (rewrite GA; exact Hin).
+    assert (InB : In L (gnames finB)) by (rewrite GB; exact Hin).
+    destruct (in_goff _ _ InA) as [qa Qa]. destruct (in_goff _ _ InB) as [qb Qb].
+    pose proof (XA _ _ Qa) as Ea'. pose proof (XB _ _ Qb) as Eb'. rewrite Ea in Ea'. rewrite Eb in Eb'.
+    inversion Ea'; inversion Eb'; subst qa qb.
+    rewrite <- (same_goff L _ _ SA), OA in Qa. rewrite <- (same_goff L _ _ SB), OB in Qb.
+    destruct (aoff L 0 (resolve_register_aliases oA cA)) as [x|] eqn:Fa; try discriminate.
+    destruct (aoff L 0 i6B) as [y|] eqn:Fb; try discriminate.
     simpl in Qa, Qb. inversion Qa; inversion Qb; subst. specialize (M2 _ _ _ Fa Fb). lia.
   - rewrite <- (blobbed_total _ _ BA), <- (blobbed_total _ _ BB), <- (same_total _ _ SA), <- (same_total _ _ SB). lia.
 Qed.
